@@ -8,6 +8,19 @@ def main() -> int:
     ap.add_argument("--tier", default=os.environ.get("VERIF_TIER", "quick"), choices=["quick", "thorough"])
     ap.add_argument("--replay")
     a = ap.parse_args()
+    # hard watchdog: a hung harness is exit 2 (no verdict), never a silent pass or a violation
+    import faulthandler
+    limit = int(os.environ.get("VERIF_TIMEOUT", "1500" if a.tier == "quick" else "7200"))
+    faulthandler.enable()
+
+    def _abort():
+        print(f"[{a.prop}] harness timeout after {limit}s (not a verdict)", flush=True)
+        faulthandler.dump_traceback()
+        os._exit(2)
+    import threading
+    wd = threading.Timer(limit, _abort)
+    wd.daemon = True
+    wd.start()
     mod = importlib.import_module(f"props.{a.prop.lower()}")
     if a.replay:
         return mod.replay(a.replay)
